@@ -1,3 +1,6 @@
+import ImathVerif.Gen.C13Box
+import ImathVerif.Gen.C13Interval
+import ImathVerif.Gen.C13Algo
 import ImathVerif.Lemmas.C13Algo
 import ImathVerif.Lemmas.BoxTransformLemmas
 import Mathlib.Tactic.NormNum
@@ -44,6 +47,77 @@ example : ((0 : Fin 4) < 3) ∧ ∀ x : Fin 4, (0 : Fin 4) ≤ x ∧ x ≤ 3 := 
 
 section Interval
 variable [LinearOrder α]
+
+/-! ### what the regenerated definitions compute (normal forms) -/
+
+theorem Interval.extendByPoint_eq (b : Interval α) (p : α) : Gen.Interval.extendByPoint b p = Interval.ext b p p := by
+  rw [Interval.ext_s]; unfold Gen.Interval.extendByPoint smin smax
+  casesplit h0a : p < b.min <;>
+  casesplit h0b : b.max < p
+
+theorem Interval.extendByBox_eq (b : Interval α) (o : Interval α) : Gen.Interval.extendByBox b o = Interval.ext b o.min o.max := by
+  rw [Interval.ext_s]; unfold Gen.Interval.extendByBox smin smax
+  casesplit h0a : o.min < b.min <;>
+  casesplit h0b : b.max < o.max
+
+/-- one `extendBy` call -/
+def Interval.step (b : Interval α) : Interval.Arg α → Interval α
+  | .pt p => Gen.Interval.extendByPoint b p
+  | .bx o => Gen.Interval.extendByBox b o
+
+/-- a sequence of `extendBy` calls, in order -/
+def Interval.extendAll (b : Interval α) (args : List (Interval.Arg α)) : Interval α := args.foldl Interval.step b
+
+theorem Interval.step_eq (b : Interval α) (a : Interval.Arg α) : Interval.step b a = Interval.stepN b a := by
+  cases a <;> simp only [Interval.step, Interval.stepN, Interval.extendByPoint_eq, Interval.extendByBox_eq]
+
+theorem Interval.extendAll_eq (args : List (Interval.Arg α)) : ∀ b : Interval α, Interval.extendAll b args = Interval.extendAllN b args := by
+  induction args with
+  | nil => intro b; rfl
+  | cons a rest ih => intro b; simp only [Interval.extendAll, Interval.extendAllN, List.foldl_cons, Interval.step_eq] at ih ⊢; exact ih _
+
+theorem Interval.intersectsPoint_iff (b : Interval α) (p : α) : Gen.Interval.intersectsPoint b p = true ↔ Interval.Mem p b := by
+  simp only [Gen.Interval.intersectsPoint, ite_false_iff, ite_false'_iff, not_lt, not_le, Interval.Mem, and_assoc, and_true] <;> tauto
+
+/-- for NON-EMPTY boxes `intersects(box)` is per-axis overlap of the min/max pairs (written so that it also holds if the
+code tests emptiness first) -/
+theorem Interval.intersectsBox_iff_axes_of_nonempty (a b : Interval α) (ha : ¬ Interval.Inverted a) (hb : ¬ Interval.Inverted b) :
+    Gen.Interval.intersectsBox a b = true ↔ (b.min ≤ a.max ∧ a.min ≤ b.max) := by
+  simp only [Interval.Inverted, not_or, not_lt] at ha hb
+  simp only [Gen.Interval.intersectsBox, ite_false_iff, ite_false'_iff, ite_true_iff, not_lt, not_le, and_assoc, and_true] <;> tauto
+
+theorem Interval.intersectsBox_of_common (a b : Interval α) (h : ∃ p, Interval.Mem p a ∧ Interval.Mem p b) :
+    Gen.Interval.intersectsBox a b = true := by
+  obtain ⟨p, hpa, hpb⟩ := h
+  rw [Interval.intersectsBox_iff_axes_of_nonempty a b (Interval.not_inverted_of_mem p a hpa) (Interval.not_inverted_of_mem p b hpb)]
+  obtain ⟨q0a, q0b⟩ := hpa
+  obtain ⟨r0a, r0b⟩ := hpb
+  bord
+
+theorem Interval.intersectsBox_symm (a b : Interval α) : Gen.Interval.intersectsBox a b = Gen.Interval.intersectsBox b a := by
+  unfold Gen.Interval.intersectsBox; split_ifs <;> first | rfl | (exfalso; bord)
+
+theorem Interval.isEmpty_iff (b : Interval α) : Gen.Interval.isEmpty b = true ↔ Interval.Inverted b := by
+  simp only [Gen.Interval.isEmpty, ite_true_iff, ite_false_iff, ite_false'_iff, Interval.Inverted, Bool.false_eq_true, or_false, and_true, not_lt, not_le] <;> tauto
+
+theorem Interval.hasVolume_iff (b : Interval α) : Gen.Interval.hasVolume b = true ↔ b.min < b.max := by
+  simp only [Gen.Interval.hasVolume, ite_true_iff, ite_false_iff, ite_false'_iff, Bool.false_eq_true, or_false, and_true, not_lt, not_le] <;> tauto
+
+theorem Interval.isInfinite_iff (tmax tlowest : α) (b : Interval α) :
+    Gen.Interval.isInfinite tmax tlowest b = true ↔ b = Interval.canonInfinite tmax tlowest := by
+  obtain ⟨l0, u0⟩ := b
+  simp only [Gen.Interval.isInfinite, ite_false_iff, ite_false'_iff, not_not, Interval.canonInfinite, Interval.mk.injEq, and_true] <;> tauto
+
+theorem Interval.eq_iff (a b : Interval α) : Gen.Interval.eq a b = true ↔ a = b := by
+  obtain ⟨m0, v0⟩ := a
+  obtain ⟨l0, u0⟩ := b
+  simp only [Gen.Interval.eq, ite_false_iff, ite_false'_iff, not_not, Interval.mk.injEq, and_true] <;> tauto
+
+theorem Interval.ne_eq_not_eq (a b : Interval α) : Gen.Interval.ne a b = !Gen.Interval.eq a b := by
+  unfold Gen.Interval.ne Gen.Interval.eq; split_ifs <;> rfl
+
+
+/-! ### the property -/
 
 /-- default construction is the canonical empty box `min = max(), max = lowest()` -/
 theorem Interval_default (tmax tlowest : α) : Gen.Interval.default tmax tlowest = Interval.canonEmpty tmax tlowest := rfl
@@ -143,12 +217,12 @@ exactly when `b` and the point are — i.e. it is the smallest box containing bo
 theorem Interval_extendByPoint_least (tmax tlowest : α) (hlt : tlowest < tmax) (hr : ∀ x : α, tlowest ≤ x ∧ x ≤ tmax)
     (b : Interval α) (hb : Interval.Canon tmax tlowest b) (p : α) (c : Interval α) :
     Interval.Subset (Gen.Interval.extendByPoint b p) c ↔ Interval.Subset b c ∧ Interval.Mem p c :=
-  (Interval.step_spec tmax tlowest hlt hr b hb (.pt p) trivial).2 c
+  by rw [Interval.extendByPoint_eq]; exact (Interval.stepN_spec tmax tlowest hlt hr b hb (.pt p) trivial).2 c
 
 theorem Interval_extendByBox_least (tmax tlowest : α) (hlt : tlowest < tmax) (hr : ∀ x : α, tlowest ≤ x ∧ x ≤ tmax)
     (b o : Interval α) (hb : Interval.Canon tmax tlowest b) (ho : Interval.Canon tmax tlowest o) (c : Interval α) :
     Interval.Subset (Gen.Interval.extendByBox b o) c ↔ Interval.Subset b c ∧ Interval.Subset o c :=
-  (Interval.step_spec tmax tlowest hlt hr b hb (.bx o) ho).2 c
+  by rw [Interval.extendByBox_eq]; exact (Interval.stepN_spec tmax tlowest hlt hr b hb (.bx o) ho).2 c
 
 /-- ANY sequence of `extendBy` calls (points and API-reachable boxes, any length) starting from the default-constructed
 box yields the smallest box containing everything added; the result is again API-reachable (so it may itself be used
@@ -157,9 +231,10 @@ theorem Interval_extend_sequence_least (tmax tlowest : α) (hlt : tlowest < tmax
     (args : List (Interval.Arg α)) (hargs : ∀ a ∈ args, a.Ok tmax tlowest) :
     let r := Interval.extendAll (Gen.Interval.default tmax tlowest) args
     Interval.Canon tmax tlowest r ∧ ∀ c, Interval.Subset r c ↔ ∀ a ∈ args, a.Within c := by
-  have h := Interval.extendAll_spec tmax tlowest hlt hr args (Interval.canonEmpty tmax tlowest) (Or.inr rfl) hargs
+  have h := Interval.extendAllN_spec tmax tlowest hlt hr args (Interval.canonEmpty tmax tlowest) (Or.inr rfl) hargs
+  rw [← Interval.extendAll_eq args _] at h
   refine ⟨h.1, fun c => ?_⟩
-  rw [show Gen.Interval.default tmax tlowest = Interval.canonEmpty tmax tlowest from rfl, h.2 c]
+  rw [show Gen.Interval.default tmax tlowest = Interval.canonEmpty tmax tlowest from Interval_default tmax tlowest, h.2 c]
   exact ⟨fun h => h.2, fun h => ⟨Interval.subset_of_inverted _ c (Interval.canonEmpty_inverted tmax tlowest hlt), h⟩⟩
 
 /-- the same from any API-reachable start box -/
@@ -167,7 +242,7 @@ theorem Interval_extend_sequence_from (tmax tlowest : α) (hlt : tlowest < tmax)
     (b : Interval α) (hb : Interval.Canon tmax tlowest b) (args : List (Interval.Arg α)) (hargs : ∀ a ∈ args, a.Ok tmax tlowest) :
     Interval.Canon tmax tlowest (Interval.extendAll b args) ∧
       ∀ c, Interval.Subset (Interval.extendAll b args) c ↔ Interval.Subset b c ∧ ∀ a ∈ args, a.Within c :=
-  Interval.extendAll_spec tmax tlowest hlt hr args b hb hargs
+  by rw [Interval.extendAll_eq]; exact Interval.extendAllN_spec tmax tlowest hlt hr args b hb hargs
 
 /-- `isEmpty()` ⇔ the denoted set is empty ⇔ some axis is inverted -/
 theorem Interval_isEmpty_iff (b : Interval α) : Gen.Interval.isEmpty b = true ↔ Interval.IsEmptySet b := by
@@ -217,6 +292,95 @@ end Interval_field
 
 section Box2
 variable [LinearOrder α]
+
+/-! ### what the regenerated definitions compute (normal forms) -/
+
+theorem Box2.extendByPoint_eq (b : Box2 α) (p : V2 α) : Gen.Box2.extendByPoint b p = Box2.ext b p p := by
+  rw [Box2.ext_s]; unfold Gen.Box2.extendByPoint smin smax
+  casesplit h0a : p.x < b.min.x <;>
+  casesplit h0b : b.max.x < p.x <;>
+  casesplit h1a : p.y < b.min.y <;>
+  casesplit h1b : b.max.y < p.y
+
+theorem Box2.extendByBox_eq (b : Box2 α) (o : Box2 α) : Gen.Box2.extendByBox b o = Box2.ext b o.min o.max := by
+  rw [Box2.ext_s]; unfold Gen.Box2.extendByBox smin smax
+  casesplit h0a : o.min.x < b.min.x <;>
+  casesplit h0b : b.max.x < o.max.x <;>
+  casesplit h1a : o.min.y < b.min.y <;>
+  casesplit h1b : b.max.y < o.max.y
+
+/-- one `extendBy` call -/
+def Box2.step (b : Box2 α) : Box2.Arg α → Box2 α
+  | .pt p => Gen.Box2.extendByPoint b p
+  | .bx o => Gen.Box2.extendByBox b o
+
+/-- a sequence of `extendBy` calls, in order -/
+def Box2.extendAll (b : Box2 α) (args : List (Box2.Arg α)) : Box2 α := args.foldl Box2.step b
+
+theorem Box2.step_eq (b : Box2 α) (a : Box2.Arg α) : Box2.step b a = Box2.stepN b a := by
+  cases a <;> simp only [Box2.step, Box2.stepN, Box2.extendByPoint_eq, Box2.extendByBox_eq]
+
+theorem Box2.extendAll_eq (args : List (Box2.Arg α)) : ∀ b : Box2 α, Box2.extendAll b args = Box2.extendAllN b args := by
+  induction args with
+  | nil => intro b; rfl
+  | cons a rest ih => intro b; simp only [Box2.extendAll, Box2.extendAllN, List.foldl_cons, Box2.step_eq] at ih ⊢; exact ih _
+
+theorem Box2.intersectsPoint_iff (b : Box2 α) (p : V2 α) : Gen.Box2.intersectsPoint b p = true ↔ Box2.Mem p b := by
+  simp only [Gen.Box2.intersectsPoint, ite_false_iff, ite_false'_iff, not_lt, not_le, Box2.Mem, and_assoc, and_true] <;> tauto
+
+/-- for NON-EMPTY boxes `intersects(box)` is per-axis overlap of the min/max pairs (written so that it also holds if the
+code tests emptiness first) -/
+theorem Box2.intersectsBox_iff_axes_of_nonempty (a b : Box2 α) (ha : ¬ Box2.Inverted a) (hb : ¬ Box2.Inverted b) :
+    Gen.Box2.intersectsBox a b = true ↔ (b.min.x ≤ a.max.x ∧ a.min.x ≤ b.max.x) ∧ (b.min.y ≤ a.max.y ∧ a.min.y ≤ b.max.y) := by
+  simp only [Box2.Inverted, not_or, not_lt] at ha hb
+  simp only [Gen.Box2.intersectsBox, ite_false_iff, ite_false'_iff, ite_true_iff, not_lt, not_le, and_assoc, and_true] <;> tauto
+
+theorem Box2.intersectsBox_of_common (a b : Box2 α) (h : ∃ p, Box2.Mem p a ∧ Box2.Mem p b) :
+    Gen.Box2.intersectsBox a b = true := by
+  obtain ⟨p, hpa, hpb⟩ := h
+  rw [Box2.intersectsBox_iff_axes_of_nonempty a b (Box2.not_inverted_of_mem p a hpa) (Box2.not_inverted_of_mem p b hpb)]
+  obtain ⟨⟨q0a, q0b⟩, ⟨q1a, q1b⟩⟩ := hpa
+  obtain ⟨⟨r0a, r0b⟩, ⟨r1a, r1b⟩⟩ := hpb
+  bord
+
+theorem Box2.intersectsBox_symm (a b : Box2 α) : Gen.Box2.intersectsBox a b = Gen.Box2.intersectsBox b a := by
+  unfold Gen.Box2.intersectsBox; split_ifs <;> first | rfl | (exfalso; bord)
+
+theorem Box2.isEmpty_iff (b : Box2 α) : Gen.Box2.isEmpty b = true ↔ Box2.Inverted b := by
+  simp only [Gen.Box2.isEmpty, ite_true_iff, ite_false_iff, ite_false'_iff, Box2.Inverted, Bool.false_eq_true, or_false, and_true, not_lt, not_le] <;> tauto
+
+theorem Box2.hasVolume_iff (b : Box2 α) : Gen.Box2.hasVolume b = true ↔ b.min.x < b.max.x ∧ b.min.y < b.max.y := by
+  simp only [Gen.Box2.hasVolume, ite_true_iff, ite_false_iff, ite_false'_iff, Bool.false_eq_true, or_false, and_true, not_lt, not_le] <;> tauto
+
+theorem Box2.isInfinite_iff (tmax tlowest : α) (b : Box2 α) :
+    Gen.Box2.isInfinite tmax tlowest b = true ↔ b = Box2.canonInfinite tmax tlowest := by
+  obtain ⟨⟨l0, l1⟩, ⟨u0, u1⟩⟩ := b
+  simp only [Gen.Box2.isInfinite, ite_false_iff, ite_false'_iff, not_not, Box2.canonInfinite, Box2.mk.injEq, V2.mk.injEq, and_true] <;> tauto
+
+theorem Box2.eq_iff (a b : Box2 α) : Gen.Box2.eq a b = true ↔ a = b := by
+  obtain ⟨⟨m0, m1⟩, ⟨v0, v1⟩⟩ := a
+  obtain ⟨⟨l0, l1⟩, ⟨u0, u1⟩⟩ := b
+  simp only [Gen.Box2.eq, ite_false_iff, ite_false'_iff, not_not, Box2.mk.injEq, V2.mk.injEq, and_true] <;> tauto
+
+theorem Box2.ne_eq_not_eq (a b : Box2 α) : Gen.Box2.ne a b = !Gen.Box2.eq a b := by
+  unfold Gen.Box2.ne Gen.Box2.eq; split_ifs <;> rfl
+
+theorem Box2.clip_eq (p : V2 α) (b : Box2 α) : Gen.Box2.clip p b = Box2.clipN p b := by
+  unfold Gen.Box2.clip Box2.clipN sclamp
+  casesplit h0a : p.x < b.min.x <;>
+  casesplit h0b : b.max.x < p.x <;>
+  casesplit h1a : p.y < b.min.y <;>
+  casesplit h1b : b.max.y < p.y
+
+theorem Box2.closestPointInBox_eq (p : V2 α) (b : Box2 α) : Gen.Box2.closestPointInBox p b = Box2.clipN p b := by
+  unfold Gen.Box2.closestPointInBox Box2.clipN sclamp
+  casesplit h0a : p.x < b.min.x <;>
+  casesplit h0b : b.max.x < p.x <;>
+  casesplit h1a : p.y < b.min.y <;>
+  casesplit h1b : b.max.y < p.y
+
+
+/-! ### the property -/
 
 /-- default construction is the canonical empty box `min = max(), max = lowest()` -/
 theorem Box2_default (tmax tlowest : α) : Gen.Box2.default tmax tlowest = Box2.canonEmpty tmax tlowest := rfl
@@ -316,12 +480,12 @@ exactly when `b` and the point are — i.e. it is the smallest box containing bo
 theorem Box2_extendByPoint_least (tmax tlowest : α) (hlt : tlowest < tmax) (hr : ∀ x : α, tlowest ≤ x ∧ x ≤ tmax)
     (b : Box2 α) (hb : Box2.Canon tmax tlowest b) (p : V2 α) (c : Box2 α) :
     Box2.Subset (Gen.Box2.extendByPoint b p) c ↔ Box2.Subset b c ∧ Box2.Mem p c :=
-  (Box2.step_spec tmax tlowest hlt hr b hb (.pt p) trivial).2 c
+  by rw [Box2.extendByPoint_eq]; exact (Box2.stepN_spec tmax tlowest hlt hr b hb (.pt p) trivial).2 c
 
 theorem Box2_extendByBox_least (tmax tlowest : α) (hlt : tlowest < tmax) (hr : ∀ x : α, tlowest ≤ x ∧ x ≤ tmax)
     (b o : Box2 α) (hb : Box2.Canon tmax tlowest b) (ho : Box2.Canon tmax tlowest o) (c : Box2 α) :
     Box2.Subset (Gen.Box2.extendByBox b o) c ↔ Box2.Subset b c ∧ Box2.Subset o c :=
-  (Box2.step_spec tmax tlowest hlt hr b hb (.bx o) ho).2 c
+  by rw [Box2.extendByBox_eq]; exact (Box2.stepN_spec tmax tlowest hlt hr b hb (.bx o) ho).2 c
 
 /-- ANY sequence of `extendBy` calls (points and API-reachable boxes, any length) starting from the default-constructed
 box yields the smallest box containing everything added; the result is again API-reachable (so it may itself be used
@@ -330,9 +494,10 @@ theorem Box2_extend_sequence_least (tmax tlowest : α) (hlt : tlowest < tmax) (h
     (args : List (Box2.Arg α)) (hargs : ∀ a ∈ args, a.Ok tmax tlowest) :
     let r := Box2.extendAll (Gen.Box2.default tmax tlowest) args
     Box2.Canon tmax tlowest r ∧ ∀ c, Box2.Subset r c ↔ ∀ a ∈ args, a.Within c := by
-  have h := Box2.extendAll_spec tmax tlowest hlt hr args (Box2.canonEmpty tmax tlowest) (Or.inr rfl) hargs
+  have h := Box2.extendAllN_spec tmax tlowest hlt hr args (Box2.canonEmpty tmax tlowest) (Or.inr rfl) hargs
+  rw [← Box2.extendAll_eq args _] at h
   refine ⟨h.1, fun c => ?_⟩
-  rw [show Gen.Box2.default tmax tlowest = Box2.canonEmpty tmax tlowest from rfl, h.2 c]
+  rw [show Gen.Box2.default tmax tlowest = Box2.canonEmpty tmax tlowest from Box2_default tmax tlowest, h.2 c]
   exact ⟨fun h => h.2, fun h => ⟨Box2.subset_of_inverted _ c (Box2.canonEmpty_inverted tmax tlowest hlt), h⟩⟩
 
 /-- the same from any API-reachable start box -/
@@ -340,7 +505,7 @@ theorem Box2_extend_sequence_from (tmax tlowest : α) (hlt : tlowest < tmax) (hr
     (b : Box2 α) (hb : Box2.Canon tmax tlowest b) (args : List (Box2.Arg α)) (hargs : ∀ a ∈ args, a.Ok tmax tlowest) :
     Box2.Canon tmax tlowest (Box2.extendAll b args) ∧
       ∀ c, Box2.Subset (Box2.extendAll b args) c ↔ Box2.Subset b c ∧ ∀ a ∈ args, a.Within c :=
-  Box2.extendAll_spec tmax tlowest hlt hr args b hb hargs
+  by rw [Box2.extendAll_eq]; exact Box2.extendAllN_spec tmax tlowest hlt hr args b hb hargs
 
 /-- `isEmpty()` ⇔ the denoted set is empty ⇔ some axis is inverted -/
 theorem Box2_isEmpty_iff (b : Box2 α) : Gen.Box2.isEmpty b = true ↔ Box2.IsEmptySet b := by
@@ -398,6 +563,103 @@ end Box2_field
 
 section Box3
 variable [LinearOrder α]
+
+/-! ### what the regenerated definitions compute (normal forms) -/
+
+theorem Box3.extendByPoint_eq (b : Box3 α) (p : V3 α) : Gen.Box3.extendByPoint b p = Box3.ext b p p := by
+  rw [Box3.ext_s]; unfold Gen.Box3.extendByPoint smin smax
+  casesplit h0a : p.x < b.min.x <;>
+  casesplit h0b : b.max.x < p.x <;>
+  casesplit h1a : p.y < b.min.y <;>
+  casesplit h1b : b.max.y < p.y <;>
+  casesplit h2a : p.z < b.min.z <;>
+  casesplit h2b : b.max.z < p.z
+
+theorem Box3.extendByBox_eq (b : Box3 α) (o : Box3 α) : Gen.Box3.extendByBox b o = Box3.ext b o.min o.max := by
+  rw [Box3.ext_s]; unfold Gen.Box3.extendByBox smin smax
+  casesplit h0a : o.min.x < b.min.x <;>
+  casesplit h0b : b.max.x < o.max.x <;>
+  casesplit h1a : o.min.y < b.min.y <;>
+  casesplit h1b : b.max.y < o.max.y <;>
+  casesplit h2a : o.min.z < b.min.z <;>
+  casesplit h2b : b.max.z < o.max.z
+
+/-- one `extendBy` call -/
+def Box3.step (b : Box3 α) : Box3.Arg α → Box3 α
+  | .pt p => Gen.Box3.extendByPoint b p
+  | .bx o => Gen.Box3.extendByBox b o
+
+/-- a sequence of `extendBy` calls, in order -/
+def Box3.extendAll (b : Box3 α) (args : List (Box3.Arg α)) : Box3 α := args.foldl Box3.step b
+
+theorem Box3.step_eq (b : Box3 α) (a : Box3.Arg α) : Box3.step b a = Box3.stepN b a := by
+  cases a <;> simp only [Box3.step, Box3.stepN, Box3.extendByPoint_eq, Box3.extendByBox_eq]
+
+theorem Box3.extendAll_eq (args : List (Box3.Arg α)) : ∀ b : Box3 α, Box3.extendAll b args = Box3.extendAllN b args := by
+  induction args with
+  | nil => intro b; rfl
+  | cons a rest ih => intro b; simp only [Box3.extendAll, Box3.extendAllN, List.foldl_cons, Box3.step_eq] at ih ⊢; exact ih _
+
+theorem Box3.intersectsPoint_iff (b : Box3 α) (p : V3 α) : Gen.Box3.intersectsPoint b p = true ↔ Box3.Mem p b := by
+  simp only [Gen.Box3.intersectsPoint, ite_false_iff, ite_false'_iff, not_lt, not_le, Box3.Mem, and_assoc, and_true] <;> tauto
+
+/-- for NON-EMPTY boxes `intersects(box)` is per-axis overlap of the min/max pairs (written so that it also holds if the
+code tests emptiness first) -/
+theorem Box3.intersectsBox_iff_axes_of_nonempty (a b : Box3 α) (ha : ¬ Box3.Inverted a) (hb : ¬ Box3.Inverted b) :
+    Gen.Box3.intersectsBox a b = true ↔ (b.min.x ≤ a.max.x ∧ a.min.x ≤ b.max.x) ∧ (b.min.y ≤ a.max.y ∧ a.min.y ≤ b.max.y) ∧ (b.min.z ≤ a.max.z ∧ a.min.z ≤ b.max.z) := by
+  simp only [Box3.Inverted, not_or, not_lt] at ha hb
+  simp only [Gen.Box3.intersectsBox, ite_false_iff, ite_false'_iff, ite_true_iff, not_lt, not_le, and_assoc, and_true] <;> tauto
+
+theorem Box3.intersectsBox_of_common (a b : Box3 α) (h : ∃ p, Box3.Mem p a ∧ Box3.Mem p b) :
+    Gen.Box3.intersectsBox a b = true := by
+  obtain ⟨p, hpa, hpb⟩ := h
+  rw [Box3.intersectsBox_iff_axes_of_nonempty a b (Box3.not_inverted_of_mem p a hpa) (Box3.not_inverted_of_mem p b hpb)]
+  obtain ⟨⟨q0a, q0b⟩, ⟨q1a, q1b⟩, ⟨q2a, q2b⟩⟩ := hpa
+  obtain ⟨⟨r0a, r0b⟩, ⟨r1a, r1b⟩, ⟨r2a, r2b⟩⟩ := hpb
+  bord
+
+theorem Box3.intersectsBox_symm (a b : Box3 α) : Gen.Box3.intersectsBox a b = Gen.Box3.intersectsBox b a := by
+  unfold Gen.Box3.intersectsBox; split_ifs <;> first | rfl | (exfalso; bord)
+
+theorem Box3.isEmpty_iff (b : Box3 α) : Gen.Box3.isEmpty b = true ↔ Box3.Inverted b := by
+  simp only [Gen.Box3.isEmpty, ite_true_iff, ite_false_iff, ite_false'_iff, Box3.Inverted, Bool.false_eq_true, or_false, and_true, not_lt, not_le] <;> tauto
+
+theorem Box3.hasVolume_iff (b : Box3 α) : Gen.Box3.hasVolume b = true ↔ b.min.x < b.max.x ∧ b.min.y < b.max.y ∧ b.min.z < b.max.z := by
+  simp only [Gen.Box3.hasVolume, ite_true_iff, ite_false_iff, ite_false'_iff, Bool.false_eq_true, or_false, and_true, not_lt, not_le] <;> tauto
+
+theorem Box3.isInfinite_iff (tmax tlowest : α) (b : Box3 α) :
+    Gen.Box3.isInfinite tmax tlowest b = true ↔ b = Box3.canonInfinite tmax tlowest := by
+  obtain ⟨⟨l0, l1, l2⟩, ⟨u0, u1, u2⟩⟩ := b
+  simp only [Gen.Box3.isInfinite, ite_false_iff, ite_false'_iff, not_not, Box3.canonInfinite, Box3.mk.injEq, V3.mk.injEq, and_true] <;> tauto
+
+theorem Box3.eq_iff (a b : Box3 α) : Gen.Box3.eq a b = true ↔ a = b := by
+  obtain ⟨⟨m0, m1, m2⟩, ⟨v0, v1, v2⟩⟩ := a
+  obtain ⟨⟨l0, l1, l2⟩, ⟨u0, u1, u2⟩⟩ := b
+  simp only [Gen.Box3.eq, ite_false_iff, ite_false'_iff, not_not, Box3.mk.injEq, V3.mk.injEq, and_true] <;> tauto
+
+theorem Box3.ne_eq_not_eq (a b : Box3 α) : Gen.Box3.ne a b = !Gen.Box3.eq a b := by
+  unfold Gen.Box3.ne Gen.Box3.eq; split_ifs <;> rfl
+
+theorem Box3.clip_eq (p : V3 α) (b : Box3 α) : Gen.Box3.clip p b = Box3.clipN p b := by
+  unfold Gen.Box3.clip Box3.clipN sclamp
+  casesplit h0a : p.x < b.min.x <;>
+  casesplit h0b : b.max.x < p.x <;>
+  casesplit h1a : p.y < b.min.y <;>
+  casesplit h1b : b.max.y < p.y <;>
+  casesplit h2a : p.z < b.min.z <;>
+  casesplit h2b : b.max.z < p.z
+
+theorem Box3.closestPointInBox_eq (p : V3 α) (b : Box3 α) : Gen.Box3.closestPointInBox p b = Box3.clipN p b := by
+  unfold Gen.Box3.closestPointInBox Box3.clipN sclamp
+  casesplit h0a : p.x < b.min.x <;>
+  casesplit h0b : b.max.x < p.x <;>
+  casesplit h1a : p.y < b.min.y <;>
+  casesplit h1b : b.max.y < p.y <;>
+  casesplit h2a : p.z < b.min.z <;>
+  casesplit h2b : b.max.z < p.z
+
+
+/-! ### the property -/
 
 /-- default construction is the canonical empty box `min = max(), max = lowest()` -/
 theorem Box3_default (tmax tlowest : α) : Gen.Box3.default tmax tlowest = Box3.canonEmpty tmax tlowest := rfl
@@ -497,12 +759,12 @@ exactly when `b` and the point are — i.e. it is the smallest box containing bo
 theorem Box3_extendByPoint_least (tmax tlowest : α) (hlt : tlowest < tmax) (hr : ∀ x : α, tlowest ≤ x ∧ x ≤ tmax)
     (b : Box3 α) (hb : Box3.Canon tmax tlowest b) (p : V3 α) (c : Box3 α) :
     Box3.Subset (Gen.Box3.extendByPoint b p) c ↔ Box3.Subset b c ∧ Box3.Mem p c :=
-  (Box3.step_spec tmax tlowest hlt hr b hb (.pt p) trivial).2 c
+  by rw [Box3.extendByPoint_eq]; exact (Box3.stepN_spec tmax tlowest hlt hr b hb (.pt p) trivial).2 c
 
 theorem Box3_extendByBox_least (tmax tlowest : α) (hlt : tlowest < tmax) (hr : ∀ x : α, tlowest ≤ x ∧ x ≤ tmax)
     (b o : Box3 α) (hb : Box3.Canon tmax tlowest b) (ho : Box3.Canon tmax tlowest o) (c : Box3 α) :
     Box3.Subset (Gen.Box3.extendByBox b o) c ↔ Box3.Subset b c ∧ Box3.Subset o c :=
-  (Box3.step_spec tmax tlowest hlt hr b hb (.bx o) ho).2 c
+  by rw [Box3.extendByBox_eq]; exact (Box3.stepN_spec tmax tlowest hlt hr b hb (.bx o) ho).2 c
 
 /-- ANY sequence of `extendBy` calls (points and API-reachable boxes, any length) starting from the default-constructed
 box yields the smallest box containing everything added; the result is again API-reachable (so it may itself be used
@@ -511,9 +773,10 @@ theorem Box3_extend_sequence_least (tmax tlowest : α) (hlt : tlowest < tmax) (h
     (args : List (Box3.Arg α)) (hargs : ∀ a ∈ args, a.Ok tmax tlowest) :
     let r := Box3.extendAll (Gen.Box3.default tmax tlowest) args
     Box3.Canon tmax tlowest r ∧ ∀ c, Box3.Subset r c ↔ ∀ a ∈ args, a.Within c := by
-  have h := Box3.extendAll_spec tmax tlowest hlt hr args (Box3.canonEmpty tmax tlowest) (Or.inr rfl) hargs
+  have h := Box3.extendAllN_spec tmax tlowest hlt hr args (Box3.canonEmpty tmax tlowest) (Or.inr rfl) hargs
+  rw [← Box3.extendAll_eq args _] at h
   refine ⟨h.1, fun c => ?_⟩
-  rw [show Gen.Box3.default tmax tlowest = Box3.canonEmpty tmax tlowest from rfl, h.2 c]
+  rw [show Gen.Box3.default tmax tlowest = Box3.canonEmpty tmax tlowest from Box3_default tmax tlowest, h.2 c]
   exact ⟨fun h => h.2, fun h => ⟨Box3.subset_of_inverted _ c (Box3.canonEmpty_inverted tmax tlowest hlt), h⟩⟩
 
 /-- the same from any API-reachable start box -/
@@ -521,7 +784,7 @@ theorem Box3_extend_sequence_from (tmax tlowest : α) (hlt : tlowest < tmax) (hr
     (b : Box3 α) (hb : Box3.Canon tmax tlowest b) (args : List (Box3.Arg α)) (hargs : ∀ a ∈ args, a.Ok tmax tlowest) :
     Box3.Canon tmax tlowest (Box3.extendAll b args) ∧
       ∀ c, Box3.Subset (Box3.extendAll b args) c ↔ Box3.Subset b c ∧ ∀ a ∈ args, a.Within c :=
-  Box3.extendAll_spec tmax tlowest hlt hr args b hb hargs
+  by rw [Box3.extendAll_eq]; exact Box3.extendAllN_spec tmax tlowest hlt hr args b hb hargs
 
 /-- `isEmpty()` ⇔ the denoted set is empty ⇔ some axis is inverted -/
 theorem Box3_isEmpty_iff (b : Box3 α) : Gen.Box3.isEmpty b = true ↔ Box3.IsEmptySet b := by
@@ -579,6 +842,111 @@ end Box3_field
 
 section Box4
 variable [LinearOrder α]
+
+/-! ### what the regenerated definitions compute (normal forms) -/
+
+theorem Box4.extendByPoint_eq (b : Box4 α) (p : V4 α) : Gen.Box4.extendByPoint b p = Box4.ext b p p := by
+  rw [Box4.ext_s]; unfold Gen.Box4.extendByPoint smin smax
+  casesplit h0a : p.x < b.min.x <;>
+  casesplit h0b : b.max.x < p.x <;>
+  casesplit h1a : p.y < b.min.y <;>
+  casesplit h1b : b.max.y < p.y <;>
+  casesplit h2a : p.z < b.min.z <;>
+  casesplit h2b : b.max.z < p.z <;>
+  casesplit h3a : p.w < b.min.w <;>
+  casesplit h3b : b.max.w < p.w
+
+theorem Box4.extendByBox_eq (b : Box4 α) (o : Box4 α) : Gen.Box4.extendByBox b o = Box4.ext b o.min o.max := by
+  rw [Box4.ext_s]; unfold Gen.Box4.extendByBox smin smax
+  casesplit h0a : o.min.x < b.min.x <;>
+  casesplit h0b : b.max.x < o.max.x <;>
+  casesplit h1a : o.min.y < b.min.y <;>
+  casesplit h1b : b.max.y < o.max.y <;>
+  casesplit h2a : o.min.z < b.min.z <;>
+  casesplit h2b : b.max.z < o.max.z <;>
+  casesplit h3a : o.min.w < b.min.w <;>
+  casesplit h3b : b.max.w < o.max.w
+
+/-- one `extendBy` call -/
+def Box4.step (b : Box4 α) : Box4.Arg α → Box4 α
+  | .pt p => Gen.Box4.extendByPoint b p
+  | .bx o => Gen.Box4.extendByBox b o
+
+/-- a sequence of `extendBy` calls, in order -/
+def Box4.extendAll (b : Box4 α) (args : List (Box4.Arg α)) : Box4 α := args.foldl Box4.step b
+
+theorem Box4.step_eq (b : Box4 α) (a : Box4.Arg α) : Box4.step b a = Box4.stepN b a := by
+  cases a <;> simp only [Box4.step, Box4.stepN, Box4.extendByPoint_eq, Box4.extendByBox_eq]
+
+theorem Box4.extendAll_eq (args : List (Box4.Arg α)) : ∀ b : Box4 α, Box4.extendAll b args = Box4.extendAllN b args := by
+  induction args with
+  | nil => intro b; rfl
+  | cons a rest ih => intro b; simp only [Box4.extendAll, Box4.extendAllN, List.foldl_cons, Box4.step_eq] at ih ⊢; exact ih _
+
+theorem Box4.intersectsPoint_iff (b : Box4 α) (p : V4 α) : Gen.Box4.intersectsPoint b p = true ↔ Box4.Mem p b := by
+  simp only [Gen.Box4.intersectsPoint, ite_false_iff, ite_false'_iff, not_lt, not_le, Box4.Mem, and_assoc, and_true] <;> tauto
+
+/-- for NON-EMPTY boxes `intersects(box)` is per-axis overlap of the min/max pairs (written so that it also holds if the
+code tests emptiness first) -/
+theorem Box4.intersectsBox_iff_axes_of_nonempty (a b : Box4 α) (ha : ¬ Box4.Inverted a) (hb : ¬ Box4.Inverted b) :
+    Gen.Box4.intersectsBox a b = true ↔ (b.min.x ≤ a.max.x ∧ a.min.x ≤ b.max.x) ∧ (b.min.y ≤ a.max.y ∧ a.min.y ≤ b.max.y) ∧ (b.min.z ≤ a.max.z ∧ a.min.z ≤ b.max.z) ∧ (b.min.w ≤ a.max.w ∧ a.min.w ≤ b.max.w) := by
+  simp only [Box4.Inverted, not_or, not_lt] at ha hb
+  simp only [Gen.Box4.intersectsBox, ite_false_iff, ite_false'_iff, ite_true_iff, not_lt, not_le, and_assoc, and_true] <;> tauto
+
+theorem Box4.intersectsBox_of_common (a b : Box4 α) (h : ∃ p, Box4.Mem p a ∧ Box4.Mem p b) :
+    Gen.Box4.intersectsBox a b = true := by
+  obtain ⟨p, hpa, hpb⟩ := h
+  rw [Box4.intersectsBox_iff_axes_of_nonempty a b (Box4.not_inverted_of_mem p a hpa) (Box4.not_inverted_of_mem p b hpb)]
+  obtain ⟨⟨q0a, q0b⟩, ⟨q1a, q1b⟩, ⟨q2a, q2b⟩, ⟨q3a, q3b⟩⟩ := hpa
+  obtain ⟨⟨r0a, r0b⟩, ⟨r1a, r1b⟩, ⟨r2a, r2b⟩, ⟨r3a, r3b⟩⟩ := hpb
+  bord
+
+theorem Box4.intersectsBox_symm (a b : Box4 α) : Gen.Box4.intersectsBox a b = Gen.Box4.intersectsBox b a := by
+  unfold Gen.Box4.intersectsBox; split_ifs <;> first | rfl | (exfalso; bord)
+
+theorem Box4.isEmpty_iff (b : Box4 α) : Gen.Box4.isEmpty b = true ↔ Box4.Inverted b := by
+  simp only [Gen.Box4.isEmpty, ite_true_iff, ite_false_iff, ite_false'_iff, Box4.Inverted, Bool.false_eq_true, or_false, and_true, not_lt, not_le] <;> tauto
+
+theorem Box4.hasVolume_iff (b : Box4 α) : Gen.Box4.hasVolume b = true ↔ b.min.x < b.max.x ∧ b.min.y < b.max.y ∧ b.min.z < b.max.z ∧ b.min.w < b.max.w := by
+  simp only [Gen.Box4.hasVolume, ite_true_iff, ite_false_iff, ite_false'_iff, Bool.false_eq_true, or_false, and_true, not_lt, not_le] <;> tauto
+
+theorem Box4.isInfinite_iff (tmax tlowest : α) (b : Box4 α) :
+    Gen.Box4.isInfinite tmax tlowest b = true ↔ b = Box4.canonInfinite tmax tlowest := by
+  obtain ⟨⟨l0, l1, l2, l3⟩, ⟨u0, u1, u2, u3⟩⟩ := b
+  simp only [Gen.Box4.isInfinite, ite_false_iff, ite_false'_iff, not_not, Box4.canonInfinite, Box4.mk.injEq, V4.mk.injEq, and_true] <;> tauto
+
+theorem Box4.eq_iff (a b : Box4 α) : Gen.Box4.eq a b = true ↔ a = b := by
+  obtain ⟨⟨m0, m1, m2, m3⟩, ⟨v0, v1, v2, v3⟩⟩ := a
+  obtain ⟨⟨l0, l1, l2, l3⟩, ⟨u0, u1, u2, u3⟩⟩ := b
+  simp only [Gen.Box4.eq, ite_false_iff, ite_false'_iff, not_not, Box4.mk.injEq, V4.mk.injEq, and_true] <;> tauto
+
+theorem Box4.ne_eq_not_eq (a b : Box4 α) : Gen.Box4.ne a b = !Gen.Box4.eq a b := by
+  unfold Gen.Box4.ne Gen.Box4.eq; split_ifs <;> rfl
+
+theorem Box4.clip_eq (p : V4 α) (b : Box4 α) : Gen.Box4.clip p b = Box4.clipN p b := by
+  unfold Gen.Box4.clip Box4.clipN sclamp
+  casesplit h0a : p.x < b.min.x <;>
+  casesplit h0b : b.max.x < p.x <;>
+  casesplit h1a : p.y < b.min.y <;>
+  casesplit h1b : b.max.y < p.y <;>
+  casesplit h2a : p.z < b.min.z <;>
+  casesplit h2b : b.max.z < p.z <;>
+  casesplit h3a : p.w < b.min.w <;>
+  casesplit h3b : b.max.w < p.w
+
+theorem Box4.closestPointInBox_eq (p : V4 α) (b : Box4 α) : Gen.Box4.closestPointInBox p b = Box4.clipN p b := by
+  unfold Gen.Box4.closestPointInBox Box4.clipN sclamp
+  casesplit h0a : p.x < b.min.x <;>
+  casesplit h0b : b.max.x < p.x <;>
+  casesplit h1a : p.y < b.min.y <;>
+  casesplit h1b : b.max.y < p.y <;>
+  casesplit h2a : p.z < b.min.z <;>
+  casesplit h2b : b.max.z < p.z <;>
+  casesplit h3a : p.w < b.min.w <;>
+  casesplit h3b : b.max.w < p.w
+
+
+/-! ### the property -/
 
 /-- default construction is the canonical empty box `min = max(), max = lowest()` -/
 theorem Box4_default (tmax tlowest : α) : Gen.Box4.default tmax tlowest = Box4.canonEmpty tmax tlowest := rfl
@@ -678,12 +1046,12 @@ exactly when `b` and the point are — i.e. it is the smallest box containing bo
 theorem Box4_extendByPoint_least (tmax tlowest : α) (hlt : tlowest < tmax) (hr : ∀ x : α, tlowest ≤ x ∧ x ≤ tmax)
     (b : Box4 α) (hb : Box4.Canon tmax tlowest b) (p : V4 α) (c : Box4 α) :
     Box4.Subset (Gen.Box4.extendByPoint b p) c ↔ Box4.Subset b c ∧ Box4.Mem p c :=
-  (Box4.step_spec tmax tlowest hlt hr b hb (.pt p) trivial).2 c
+  by rw [Box4.extendByPoint_eq]; exact (Box4.stepN_spec tmax tlowest hlt hr b hb (.pt p) trivial).2 c
 
 theorem Box4_extendByBox_least (tmax tlowest : α) (hlt : tlowest < tmax) (hr : ∀ x : α, tlowest ≤ x ∧ x ≤ tmax)
     (b o : Box4 α) (hb : Box4.Canon tmax tlowest b) (ho : Box4.Canon tmax tlowest o) (c : Box4 α) :
     Box4.Subset (Gen.Box4.extendByBox b o) c ↔ Box4.Subset b c ∧ Box4.Subset o c :=
-  (Box4.step_spec tmax tlowest hlt hr b hb (.bx o) ho).2 c
+  by rw [Box4.extendByBox_eq]; exact (Box4.stepN_spec tmax tlowest hlt hr b hb (.bx o) ho).2 c
 
 /-- ANY sequence of `extendBy` calls (points and API-reachable boxes, any length) starting from the default-constructed
 box yields the smallest box containing everything added; the result is again API-reachable (so it may itself be used
@@ -692,9 +1060,10 @@ theorem Box4_extend_sequence_least (tmax tlowest : α) (hlt : tlowest < tmax) (h
     (args : List (Box4.Arg α)) (hargs : ∀ a ∈ args, a.Ok tmax tlowest) :
     let r := Box4.extendAll (Gen.Box4.default tmax tlowest) args
     Box4.Canon tmax tlowest r ∧ ∀ c, Box4.Subset r c ↔ ∀ a ∈ args, a.Within c := by
-  have h := Box4.extendAll_spec tmax tlowest hlt hr args (Box4.canonEmpty tmax tlowest) (Or.inr rfl) hargs
+  have h := Box4.extendAllN_spec tmax tlowest hlt hr args (Box4.canonEmpty tmax tlowest) (Or.inr rfl) hargs
+  rw [← Box4.extendAll_eq args _] at h
   refine ⟨h.1, fun c => ?_⟩
-  rw [show Gen.Box4.default tmax tlowest = Box4.canonEmpty tmax tlowest from rfl, h.2 c]
+  rw [show Gen.Box4.default tmax tlowest = Box4.canonEmpty tmax tlowest from Box4_default tmax tlowest, h.2 c]
   exact ⟨fun h => h.2, fun h => ⟨Box4.subset_of_inverted _ c (Box4.canonEmpty_inverted tmax tlowest hlt), h⟩⟩
 
 /-- the same from any API-reachable start box -/
@@ -702,7 +1071,7 @@ theorem Box4_extend_sequence_from (tmax tlowest : α) (hlt : tlowest < tmax) (hr
     (b : Box4 α) (hb : Box4.Canon tmax tlowest b) (args : List (Box4.Arg α)) (hargs : ∀ a ∈ args, a.Ok tmax tlowest) :
     Box4.Canon tmax tlowest (Box4.extendAll b args) ∧
       ∀ c, Box4.Subset (Box4.extendAll b args) c ↔ Box4.Subset b c ∧ ∀ a ∈ args, a.Within c :=
-  Box4.extendAll_spec tmax tlowest hlt hr args b hb hargs
+  by rw [Box4.extendAll_eq]; exact Box4.extendAllN_spec tmax tlowest hlt hr args b hb hargs
 
 /-- `isEmpty()` ⇔ the denoted set is empty ⇔ some axis is inverted -/
 theorem Box4_isEmpty_iff (b : Box4 α) : Gen.Box4.isEmpty b = true ↔ Box4.IsEmptySet b := by
@@ -870,6 +1239,48 @@ end lifts_group
 
 /-! ## clip / closestPointInBox / closestPointOnBox -/
 
+set_option maxHeartbeats 1600000 in
+/-- induction principle over the 69 extracted paths of `closestPointOnBox`: every path is the empty-box early
+return, the clip of an outside point, or an inside point moved to the face with the smallest of the six face
+distances.  The theorems below are derived from it, so the extracted tree is walked once. -/
+theorem Box3.closestPointOnBox_cases [LinearOrder α] [Sub α] (p : V3 α) (b : Box3 α) (P : V3 α → Prop)
+    (hE : Box3.Inverted b → P p)
+    (hO : ¬ Box3.Inverted b → ¬ Box3.Mem p b → P (Box3.clipN p b))
+    (hI : ¬ Box3.Inverted b → Box3.Mem p b → ∀ q, Box3.InsideChoice p b q → P q) :
+    P (Gen.Box3.closestPointOnBox p b) := by
+  unfold Gen.Box3.closestPointOnBox
+  extract_lets t1 t2 t3 t4 t5 t6
+  repeat' (apply ite_ind P <;> intro _)
+  -- the three early returns of an inverted box
+  all_goals first
+    | exact hE (Or.inl (by assumption))
+    | exact hE (Or.inr (Or.inl (by assumption)))
+    | exact hE (Or.inr (Or.inr (by assumption)))
+    | skip
+  all_goals
+    have hni : ¬ Box3.Inverted b := by
+      simp only [Box3.Inverted, not_or]; refine ⟨?_, ?_, ?_⟩ <;> assumption
+  all_goals first
+    | -- p inside: one coordinate moved to the nearest face
+      (have hm : Box3.Mem p b := by
+         refine ⟨⟨?_, ?_⟩, ⟨?_, ?_⟩, ⟨?_, ?_⟩⟩ <;> exact not_lt.mp (by assumption)
+       simp only [t1, t2, t3, t4, t5, t6] at *
+       apply hI hni hm
+       unfold Box3.InsideChoice
+       first
+        | (left; refine ⟨rfl, ?_⟩; simp only [← le_min_iff]; order)
+        | (right; left; refine ⟨rfl, ?_⟩; simp only [← le_min_iff]; order)
+        | (right; right; left; refine ⟨rfl, ?_⟩; simp only [← le_min_iff]; order)
+        | (right; right; right; left; refine ⟨rfl, ?_⟩; simp only [← le_min_iff]; order)
+        | (right; right; right; right; left; refine ⟨rfl, ?_⟩; simp only [← le_min_iff]; order)
+        | (right; right; right; right; right; refine ⟨rfl, ?_⟩; simp only [← le_min_iff]; order))
+    | -- p outside: the result is the clip
+      (have e := hO hni (by rintro ⟨⟨m1, m2⟩, ⟨m3, m4⟩, ⟨m5, m6⟩⟩; order)
+       simp only [Box3.clipN, sclamp, *, if_true, if_false] at e
+       exact e)
+
+
+
 section clip_order
 variable [LinearOrder α]
 
@@ -972,6 +1383,38 @@ example : ¬ Box3.Inverted (⟨⟨0, 0, 0⟩, ⟨2, 2, 2⟩⟩ : Box3 Int) ∧ B
 
 `affImg m p` is the affine image `p·M` (row vector times the upper 4×3 block plus the translation row);
 `Gen.BoxAlgo.vecTimesM44 c m` is the real `Vec3 * Matrix44` (with homogeneous divide) applied to a corner. -/
+
+section transform_gen
+open BoxTransform
+variable [Field α] [LinearOrder α] [IsStrictOrderedRing α]
+
+/-- for an affine matrix `points[i] * m` (with its homogeneous divide by `w = 1`) is the affine image -/
+theorem vecTimesM44_affine (m : M44 α) (h : isAffine m = true) (c : V3 α) :
+    Gen.BoxAlgo.vecTimesM44 c m = affImg m c := by
+  simp only [isAffine, Bool.and_eq_true, decide_eq_true_eq] at h
+  obtain ⟨⟨⟨h0, h1⟩, h2⟩, h3⟩ := h
+  simp only [Gen.BoxAlgo.vecTimesM44, affImg, affCoord, h0, h1, h2, h3, mul_zero, add_zero, zero_add, div_one]
+
+/-- the eight-corner loop as a sequence of `extendBy(point)` calls -/
+theorem projective_eq_extendAll (start b : Box3 α) (m : M44 α) :
+    projective start b m = Box3.extendAll start ((corners b).map (fun c => Box3.Arg.pt (Gen.BoxAlgo.vecTimesM44 c m))) := by
+  simp only [projective, Box3.extendAll, List.foldl_map, Box3.step]
+
+/-- the eight-corner loop from an API-reachable start box: least box containing `start` and the eight images -/
+theorem projective_spec (tmax tlowest : α) (hlt : tlowest < tmax) (hr : ∀ x : α, tlowest ≤ x ∧ x ≤ tmax)
+    (start b : Box3 α) (m : M44 α) (hs : Box3.Canon tmax tlowest start) :
+    Box3.Canon tmax tlowest (projective start b m) ∧
+    ∀ c', Box3.Subset (projective start b m) c' ↔
+      Box3.Subset start c' ∧ ∀ c ∈ corners b, Box3.Mem (Gen.BoxAlgo.vecTimesM44 c m) c' := by
+  rw [projective_eq_extendAll, Box3.extendAll_eq]
+  have h := Box3.extendAllN_spec tmax tlowest hlt hr
+    ((corners b).map (fun c => Box3.Arg.pt (Gen.BoxAlgo.vecTimesM44 c m))) start hs
+    (by intro a ha; simp only [List.mem_map] at ha; obtain ⟨c, -, rfl⟩ := ha; trivial)
+  refine ⟨h.1, fun c' => ?_⟩
+  rw [h.2 c']
+  simp only [List.mem_map, forall_exists_index, and_imp, forall_apply_eq_imp_iff₂, Box3.Arg.Within]
+
+end transform_gen
 
 section transform
 open BoxTransform
